@@ -45,6 +45,8 @@ func (s sideSet) String() string {
 type sideCtx struct {
 	p    *Prog
 	busy map[ssa.Value]bool
+	// parameters of a builder helper that is looked at from one of its call sites
+	bind map[*ssa.Parameter]ssa.Value
 }
 
 // isPairStruct: a struct with fields a and b of the same type.
@@ -55,12 +57,12 @@ func pairFieldSide(fa interface {
 		return ""
 	}
 	f := st.Field(idx)
-	if f.Name() != "a" && f.Name() != "b" {
+	if fldName(f) != "a" && fldName(f) != "b" {
 		return ""
 	}
 	var ta, tb types.Type
 	for i := 0; i < st.NumFields(); i++ {
-		switch st.Field(i).Name() {
+		switch fldName(st.Field(i)) {
 		case "a":
 			ta = st.Field(i).Type()
 		case "b":
@@ -70,7 +72,7 @@ func pairFieldSide(fa interface {
 	if ta == nil || tb == nil || !types.Identical(ta, tb) {
 		return ""
 	}
-	return f.Name()
+	return fldName(f)
 }
 
 func sideStructOf(t types.Type) *types.Struct {
@@ -145,6 +147,10 @@ func (c *sideCtx) sides(v ssa.Value, depth int) sideSet {
 	switch x := v.(type) {
 	case *ssa.Const, *ssa.Global, *ssa.Function, *ssa.Builtin, *ssa.MakeClosure:
 	case *ssa.Parameter:
+		if bv, ok := c.bind[x]; ok {
+			out.add(c.sides(bv, d))
+			break
+		}
 		fn := x.Parent()
 		idx := -1
 		for i, p := range fn.Params {
@@ -301,9 +307,120 @@ var sideEmitters = map[string]bool{
 	"encoding/json.MarshalIndent": true,
 }
 
+// isBuildOp: a fmt.Sprintf call or the root of a string concatenation; returns its operands.
+func buildOpsOf(v ssa.Value) ([]ssa.Value, bool) {
+	switch x := v.(type) {
+	case *ssa.Call:
+		f := x.Common().StaticCallee()
+		if f == nil || shortName(f) != "fmt.Sprintf" {
+			return nil, false
+		}
+		var ops []ssa.Value
+		for _, a := range x.Common().Args {
+			if el, ok := sliceLitElems(a); ok {
+				ops = append(ops, el...)
+			} else {
+				ops = append(ops, a)
+			}
+		}
+		return ops, true
+	case *ssa.BinOp:
+		if x.Op != token.ADD || !isStringType(x.Type()) {
+			return nil, false
+		}
+		var ops []ssa.Value
+		concatLeaves(x, &ops)
+		return ops, true
+	}
+	return nil, false
+}
+
+// builderHelper: a top-level module function with one string result where every
+// return hands out a string built right there (Sprintf / concatenation).  Such a
+// function is a spelled-out command template: its build operations are judged at
+// its call sites, with the arguments in place of the parameters, so that moving
+// a Sprintf into a helper does not change what is compared.
+func builderHelper(fn *ssa.Function) []ssa.Value {
+	if fn == nil || fn.Parent() != nil || fn.Synthetic != "" || len(fn.Blocks) == 0 {
+		return nil
+	}
+	res := fn.Signature.Results()
+	if res.Len() != 1 || !isStringType(res.At(0).Type()) {
+		return nil
+	}
+	var builds []ssa.Value
+	seen := map[ssa.Value]bool{}
+	var visit func(v ssa.Value) bool
+	visit = func(v ssa.Value) bool {
+		if seen[v] {
+			return true
+		}
+		seen[v] = true
+		if ph, ok := v.(*ssa.Phi); ok {
+			for _, e := range ph.Edges {
+				if !visit(e) {
+					return false
+				}
+			}
+			return true
+		}
+		if _, ok := v.(*ssa.Const); ok {
+			return true
+		}
+		if _, ok := buildOpsOf(v); ok {
+			builds = append(builds, v)
+			return true
+		}
+		return false
+	}
+	for _, b := range fn.Blocks {
+		if len(b.Instrs) == 0 {
+			continue
+		}
+		if ret, ok := b.Instrs[len(b.Instrs)-1].(*ssa.Return); ok {
+			if len(ret.Results) != 1 || !visit(ret.Results[0]) {
+				return nil
+			}
+		}
+	}
+	return builds
+}
+
+// usedAsBuildOperand: the value is an operand of a concatenation or an argument of
+// a variadic call (Sprintf) in its own function.
+func usedAsBuildOperand(v ssa.Value) bool {
+	refs := v.Referrers()
+	if refs == nil {
+		return false
+	}
+	for _, r := range *refs {
+		switch x := r.(type) {
+		case *ssa.BinOp:
+			if x.Op == token.ADD && isStringType(x.Type()) {
+				return true
+			}
+		case *ssa.MakeInterface:
+			if x.Referrers() != nil {
+				for _, r2 := range *x.Referrers() {
+					if st, ok := r2.(*ssa.Store); ok {
+						if _, ok := st.Addr.(*ssa.IndexAddr); ok {
+							return true
+						}
+					}
+				}
+			}
+		}
+	}
+	return false
+}
+
 func sideSitesOf(p *Prog, fn *ssa.Function) []sideSite {
-	c := &sideCtx{p: p, busy: map[ssa.Value]bool{}}
+	c := &sideCtx{p: p, busy: map[ssa.Value]bool{}, bind: map[*ssa.Parameter]ssa.Value{}}
 	var out []sideSite
+	ownBuilds := map[ssa.Value]bool{}
+	for _, v := range builderHelper(fn) {
+		ownBuilds[v] = true
+	}
 	emit := func(name string, in ssa.Instruction, ops []ssa.Value) {
 		var parts []string
 		any := false
@@ -326,7 +443,26 @@ func sideSitesOf(p *Prog, fn *ssa.Function) []sideSite {
 			switch x := in.(type) {
 			case *ssa.Call:
 				f := x.Common().StaticCallee()
-				if f == nil || !sideEmitters[shortName(f)] {
+				if f != nil && pkgOfFunc(f) == pkgOfFunc(fn) {
+					if hb := builderHelper(f); len(hb) > 0 && len(f.Params) == len(x.Common().Args) {
+						if usedAsBuildOperand(x) {
+							// part of a larger string built here: judged as an operand of that one
+							continue
+						}
+						for i, pa := range f.Params {
+							c.bind[pa] = x.Common().Args[i]
+						}
+						for _, bv := range hb {
+							ops, _ := buildOpsOf(bv)
+							emit("build", x, ops)
+						}
+						for _, pa := range f.Params {
+							delete(c.bind, pa)
+						}
+						continue
+					}
+				}
+				if f == nil || !sideEmitters[shortName(f)] || ownBuilds[x] {
 					continue
 				}
 				var ops []ssa.Value
@@ -353,7 +489,7 @@ func sideSitesOf(p *Prog, fn *ssa.Function) []sideSite {
 						root = false
 					}
 				}
-				if !root {
+				if !root || ownBuilds[x] {
 					continue
 				}
 				var ops []ssa.Value
